@@ -92,3 +92,61 @@ theorem overload_left_nil (src self : Props) (opts : Opts) :
 
 end Full
 end Expose
+
+namespace Expose
+namespace Full
+
+/-! ## what a copy is, one level down -/
+
+theorem copies_entry (ex inc : Option (List Rule)) : ∀ (src : Ports) (c : Nat) (n : Name) (o : Obj),
+    (n, o) ∈ (copies ex inc src c).1 →
+    ∃ p c1, (n, p) ∈ src ∧
+      ((∃ j a, p = .leaf j a ∧ o = .leaf c1 a) ∨
+       (∃ j pr sub, p = .ns j pr sub ∧
+          o = .ns c1 (overload pr [] pr).1 (absorbLoop (strip n ex) (strip n inc) sub [] (c1 + 1)).1))
+  | [], c, n, o, h => by simp [copies] at h
+  | (name, .leaf j a) :: rest, c, n, o, h => by
+    simp only [copies] at h
+    split at h
+    · (obtain ⟨p, c1, hm, hr⟩ := copies_entry ex inc rest c n o h; exact ⟨p, c1, List.mem_cons_of_mem _ hm, hr⟩)
+    · split at h
+      · (obtain ⟨p, c1, hm, hr⟩ := copies_entry ex inc rest c n o h; exact ⟨p, c1, List.mem_cons_of_mem _ hm, hr⟩)
+      · simp only [List.mem_cons, Prod.mk.injEq] at h
+        rcases h with ⟨rfl, rfl⟩ | h
+        · exact ⟨_, c, List.mem_cons_self, Or.inl ⟨j, a, rfl, rfl⟩⟩
+        · (obtain ⟨p, c1, hm, hr⟩ := copies_entry ex inc rest (c + 1) n o h; exact ⟨p, c1, List.mem_cons_of_mem _ hm, hr⟩)
+  | (name, .ns j pr sub) :: rest, c, n, o, h => by
+    simp only [copies] at h
+    split at h
+    · (obtain ⟨p, c1, hm, hr⟩ := copies_entry ex inc rest c n o h; exact ⟨p, c1, List.mem_cons_of_mem _ hm, hr⟩)
+    · split at h
+      · (obtain ⟨p, c1, hm, hr⟩ := copies_entry ex inc rest c n o h; exact ⟨p, c1, List.mem_cons_of_mem _ hm, hr⟩)
+      · simp only [List.mem_cons, Prod.mk.injEq] at h
+        rcases h with ⟨rfl, rfl⟩ | h
+        · exact ⟨_, c, List.mem_cons_self, Or.inr ⟨j, pr, sub, rfl, rfl⟩⟩
+        · (obtain ⟨p, c1, hm, hr⟩ := copies_entry ex inc rest _ n o h; exact ⟨p, c1, List.mem_cons_of_mem _ hm, hr⟩)
+
+theorem mem_of_lookup {n : Name} {o : Obj} : ∀ {ps : Ports}, lookup n ps = some o → (n, o) ∈ ps
+  | [], h => by simp [lookup] at h
+  | (m, p) :: rest, h => by
+    by_cases hm : m = n
+    · simp only [lookup, hm, if_true, Option.some.injEq] at h
+      subst h; subst hm; exact List.mem_cons_self
+    · simp only [lookup, hm, if_false] at h
+      exact List.mem_cons_of_mem _ (mem_of_lookup h)
+
+theorem lookup_of_mem {n : Name} {o : Obj} : ∀ {ps : Ports}, (keys ps).Nodup → (n, o) ∈ ps → lookup n ps = some o
+  | [], _, h => by simp at h
+  | (m, p) :: rest, hd, h => by
+    simp only [keys, List.map_cons, List.nodup_cons] at hd
+    simp only [List.mem_cons, Prod.mk.injEq] at h
+    rcases h with ⟨rfl, rfl⟩ | h
+    · simp [lookup]
+    · have hne : m ≠ n := by
+        intro he; subst he
+        exact hd.1 (List.mem_map.mpr ⟨(m, o), h, rfl⟩)
+      simp only [lookup, hne, if_false]
+      exact lookup_of_mem (by simpa [keys] using hd.2) h
+
+end Full
+end Expose
